@@ -13,7 +13,7 @@ import (
 
 var specC08 = report.Spec{Property: "C08", Check: "C08",
 	Rule: "arbitrary and valid polygons x round grids only (synthetic dyadic with 2-4 tile matrices; NetherlandsRDNewQuad ids 0-16; roundness decided by the harness: span*1e10 mod 2^level == 0) x a drawn set of 2-4 ids x flags; " +
-		"for EVERY non-empty subset S of the drawn set (given in drawn order): keys(Snap(p,S)) is a subset of S, and for every z in S the value Snap(p,S)[z] deep-equals Snap(p,{z})[z] (present or absent alike). " +
+		"for EVERY non-empty subset S of the drawn set (listed in drawn, rotated or reversed order): keys(Snap(p,S)) is a subset of S, and for every z in S the value Snap(p,S)[z] deep-equals Snap(p,{z})[z] (present or absent alike). " +
 		"Non-trivial: >= 2 ids and the outcomes differ between levels (some requested tile matrix is absent or has a different number of polygons/rings/vertices than another). Distinct by case content.",
 	Assumptions: []string{"float equality is demanded because both sides come from the same deterministic conversion"}}
 
@@ -105,6 +105,14 @@ func oracleC08(c C08Case) (o report.Outcome) {
 		}
 		if len(s) < 2 {
 			continue
+		}
+		if mask&1 != 0 && len(s) >= 2 { // the order in which the ids are listed is not part of the request either
+			s = append(s[1:len(s):len(s)], s[0])
+			if mask&2 != 0 {
+				for i, j := 0, len(s)-1; i < j; i, j = i+1, j-1 {
+					s[i], s[j] = s[j], s[i]
+				}
+			}
 		}
 		res := snapWith(c.SnapCase, c.Poly, s, c.config())
 		if res.Panic != nil {
